@@ -134,9 +134,8 @@ Definition get_parameter_size : MH (option N) :=
 
 (** shared by get_parameter_section (v0 and v1) once the parameter is selected *)
 Definition read_section (param : list N) (start length offset : N) : MH (option N) :=
-  ml <- mem_len ;;
   let write_end := start + length in
-  ensure (write_end <=? ml) ;;;
+  ensure_fits (write_end) ;;;
   let end_ := N.min (offset + length) (lenN param) in
   ensure (offset <=? end_) ;;;
   _ <- mslice start write_end ;;                             (* &mut memory[start..write_end] *)
@@ -155,9 +154,8 @@ Definition get_policy_section (start length offset : N) : MH (option N) :=
   read_section (h_policy h) start length offset.
 
 Definition log_event (start length : N) : MH (option N) :=
-  ml <- mem_len ;;
   let end_ := start + length in
-  ensure (end_ <=? ml) ;;;
+  ensure_fits (end_) ;;;
   if length <=? MAX_LOG_SIZE then
     tick (log_event_cost length) ;;;
     bytes <- mslice start end_ ;;
@@ -168,18 +166,16 @@ Definition log_event (start length : N) : MH (option N) :=
 
 Definition load_state (start length offset : N) : MH (option N) :=
   tick (copy_from_host_cost length) ;;;
-  ml <- mem_len ;;
   let end_ := start + length in
-  ensure (end_ <=? ml) ;;;
+  ensure_fits (end_) ;;;
   _ <- mslice start end_ ;;
   r <- st_load_state offset start length ;;
   ret (Some r).
 
 Definition write_state (start length offset : N) : MH (option N) :=
   tick (copy_to_host_cost length) ;;;
-  ml <- mem_len ;;
   let end_ := start + length in
-  ensure (end_ <=? ml) ;;;
+  ensure_fits (end_) ;;;
   bytes <- mslice start end_ ;;
   r <- st_write_state offset bytes ;;
   ret (Some r).
@@ -199,8 +195,7 @@ Definition get_slot_time : MH (option N) :=
 
 (** writes a fixed 32-byte address at [start] *)
 Definition put_address (addr : list N) (start : N) : MH (option N) :=
-  ml <- mem_len ;;
-  ensure (start + 32 <=? ml) ;;;
+  ensure_fits (start + 32) ;;;
   _ <- mslice start (start + 32) ;;
   mstore start (firstnN 32 (addr ++ zerosN 32)) ;;; emit (EvFixed 32) ;;; ret None.
 
@@ -213,8 +208,7 @@ Definition get_receive_owner (start : N) : MH (option N) :=
 
 Definition get_receive_self_address (start : N) : MH (option N) :=
   h <- get_hs ;;
-  ml <- mem_len ;;
-  ensure (start + 16 <=? ml) ;;;
+  ensure_fits (start + 16) ;;;
   _ <- mslice start (start + 8) ;;
   mstore start (le_bytes 8 (h_self_index h)) ;;;
   _ <- mslice (start + 8) (start + 16) ;;
@@ -225,11 +219,10 @@ Definition get_receive_self_balance : MH (option N) :=
 
 Definition get_receive_sender (start : N) : MH (option N) :=
   h <- get_hs ;;
-  ml <- mem_len ;;
-  ensure (start <? ml) ;;;
-  _ <- mslice start ml ;;                                    (* &mut memory[start..] *)
+  ensure_fits (start + 1) ;;;                                (* ensure!(start < memory.len()) *)
+  mborrow_from start ;;;                                     (* &mut memory[start..] *)
   (* Address::serial into the remaining slice fails (-> trap) when it does not fit *)
-  ensure (start + lenN (h_sender h) <=? ml) ;;;
+  ensure_fits (start + lenN (h_sender h)) ;;;
   mstore start (h_sender h) ;;; emit (EvFixed (lenN (h_sender h))) ;;; ret None.
 
 Definition accept : MH (option N) :=
@@ -238,8 +231,7 @@ Definition accept : MH (option N) :=
 
 Definition simple_transfer (addr_start amount : N) : MH (option N) :=
   tick BASE_ACTION_COST ;;;
-  ml <- mem_len ;;
-  ensure (addr_start + 32 <=? ml) ;;;
+  ensure_fits (addr_start + 32) ;;;
   bytes <- mslice addr_start (addr_start + 32) ;;
   emit (EvFixed 32) ;;;
   r <- push_action (ATransfer bytes amount) ;; ret (Some r).
@@ -247,11 +239,10 @@ Definition simple_transfer (addr_start amount : N) : MH (option N) :=
 Definition send (addr_index addr_subindex receive_name_start receive_name_len amount
                  parameter_start parameter_len : N) : MH (option N) :=
   tick (action_send_cost parameter_len) ;;;
-  ml <- mem_len ;;
   let parameter_end := parameter_start + parameter_len in
   let receive_name_end := receive_name_start + receive_name_len in
-  ensure (parameter_end <=? ml) ;;;
-  ensure (receive_name_end <=? ml) ;;;
+  ensure_fits (parameter_end) ;;;
+  ensure_fits (receive_name_end) ;;;
   name <- mslice receive_name_start receive_name_end ;;
   param <- mslice parameter_start parameter_end ;;
   r <- out_send addr_index addr_subindex name amount param ;;
